@@ -68,16 +68,47 @@ theorem c11_string_ids_resolve {texts : List Bytes} {s : RStr} {id : Nat}
 
 /-- **no dangling unit-property id**: the id written for a unit-property set is the slot of a
 stored set with equal content -/
+theorem cuwpOwn_resolves {ctx : EncCtx} {c : RCuwp} {i : Nat} (h : cuwpOwn ctx c = some i) :
+    ∃ t ∈ ctx.cuwps, t.idx = some i ∧ t.key = c.key := by
+  unfold cuwpOwn at h
+  cases hc : c.idx with
+  | none => simp [hc] at h
+  | some k =>
+    simp only [hc] at h
+    cases hf : cuwpAt ctx k with
+    | none => simp [hf] at h
+    | some t =>
+      simp only [hf] at h
+      split at h
+      · rename_i hkey
+        cases h
+        unfold cuwpAt at hf
+        refine ⟨t, ?_, ?_, by simpa using hkey⟩
+        · have := List.mem_of_find?_eq_some hf; simpa using this
+        · have := List.find?_some hf; simpa using this
+      · cases h
+
 theorem c11_cuwp_ids_resolve {ctx : EncCtx} {c : RCuwp} {i : Nat} (h : cuwpId ctx c = some i) :
     ∃ t ∈ ctx.cuwps, t.idx = some i ∧ t.key = c.key := by
   unfold cuwpId at h
-  cases hf : ctx.cuwps.reverse.find? (fun t => t.key == c.key) with
-  | none => simp [hf] at h
-  | some t =>
-    simp [hf] at h
-    refine ⟨t, ?_, h, ?_⟩
-    · have := List.mem_of_find?_eq_some hf; simpa using this
-    · have := List.find?_some hf; simpa using this
+  cases ho : cuwpOwn ctx c with
+  | some j => simp [ho] at h; subst h; exact cuwpOwn_resolves ho
+  | none =>
+    simp only [ho, Option.orElse_none] at h
+    cases hf : ctx.cuwps.reverse.find? (fun t => t.key == c.key) with
+    | none => simp [hf] at h
+    | some t =>
+      simp [hf] at h
+      refine ⟨t, ?_, h, ?_⟩
+      · have := List.mem_of_find?_eq_some hf; simpa using this
+      · have := List.find?_some hf; simpa using this
+
+/-- **a reference to a stored slot stays on that slot**: a set carrying index `i` that is the one
+stored at `i` is written as `i`, whatever other slots hold equal content -/
+theorem c11_cuwp_reference_keeps_slot {ctx : EncCtx} {c : RCuwp} {i : Nat} (hi : c.idx = some i)
+    (hs : ∃ t, cuwpAt ctx i = some t ∧ t.key = c.key) : cuwpId ctx c = some i := by
+  obtain ⟨t, ht, hk⟩ := hs
+  simp [cuwpId, cuwpOwn, hi, ht, hk]
 
 /-- a string that is not in the table makes the encoder raise (KeyError), never a wrong id -/
 theorem c11_missing_string_raises (texts : List Bytes) (t : Bytes) (h : t ∉ texts) :
